@@ -466,7 +466,11 @@ func (f *File) Readdirnames(n int) ([]string, error) {
 		"n":    n,
 	})
 
-	if !f.info.IsDir() {
+	f.ioLock.Lock()
+	isDir := f.info.IsDir()
+	f.ioLock.Unlock()
+
+	if !isDir {
 		return []string{}, config.ErrIsFile
 	}
 
@@ -498,12 +502,12 @@ func (f *File) Read(p []byte) (n int, err error) {
 		return 0, nil
 	}
 
+	f.ioLock.Lock()
+	defer f.ioLock.Unlock()
+
 	if f.info.IsDir() {
 		return -1, config.ErrIsDirectory
 	}
-
-	f.ioLock.Lock()
-	defer f.ioLock.Unlock()
 
 	if f.writeBuf != nil {
 		return f.writeBuf.Read(p)
@@ -571,7 +575,11 @@ func (f *File) ReadAt(p []byte, off int64) (n int, err error) {
 		return 0, nil
 	}
 
-	if f.info.IsDir() {
+	f.ioLock.Lock()
+	isDir := f.info.IsDir()
+	f.ioLock.Unlock()
+
+	if isDir {
 		return -1, config.ErrIsDirectory
 	}
 
@@ -603,6 +611,9 @@ func (f *File) Write(p []byte) (n int, err error) {
 		"p":    len(p),
 	})
 
+	f.ioLock.Lock()
+	defer f.ioLock.Unlock()
+
 	if f.info.IsDir() {
 		return -1, config.ErrIsDirectory
 	}
@@ -610,9 +621,6 @@ func (f *File) Write(p []byte) (n int, err error) {
 	if !f.flags.Write {
 		return -1, os.ErrPermission
 	}
-
-	f.ioLock.Lock()
-	defer f.ioLock.Unlock()
 
 	if err := f.enterWriteMode(); err != nil {
 		return -1, err
@@ -633,6 +641,9 @@ func (f *File) WriteAt(p []byte, off int64) (n int, err error) {
 		"off":  off,
 	})
 
+	f.ioLock.Lock()
+	defer f.ioLock.Unlock()
+
 	if f.info.IsDir() {
 		return -1, config.ErrIsDirectory
 	}
@@ -640,9 +651,6 @@ func (f *File) WriteAt(p []byte, off int64) (n int, err error) {
 	if !f.flags.Write {
 		return -1, os.ErrPermission
 	}
-
-	f.ioLock.Lock()
-	defer f.ioLock.Unlock()
 
 	if err := f.enterWriteMode(); err != nil {
 		return -1, err
@@ -661,6 +669,9 @@ func (f *File) WriteString(s string) (ret int, err error) {
 		"s":    len(s),
 	})
 
+	f.ioLock.Lock()
+	defer f.ioLock.Unlock()
+
 	if f.info.IsDir() {
 		return -1, config.ErrIsDirectory
 	}
@@ -668,9 +679,6 @@ func (f *File) WriteString(s string) (ret int, err error) {
 	if !f.flags.Write {
 		return -1, os.ErrPermission
 	}
-
-	f.ioLock.Lock()
-	defer f.ioLock.Unlock()
 
 	if err := f.enterWriteMode(); err != nil {
 		return -1, err
@@ -685,6 +693,9 @@ func (f *File) Truncate(size int64) error {
 		"size": size,
 	})
 
+	f.ioLock.Lock()
+	defer f.ioLock.Unlock()
+
 	if f.info.IsDir() {
 		return config.ErrIsDirectory
 	}
@@ -692,9 +703,6 @@ func (f *File) Truncate(size int64) error {
 	if !f.flags.Write {
 		return os.ErrPermission
 	}
-
-	f.ioLock.Lock()
-	defer f.ioLock.Unlock()
 
 	if err := f.enterWriteMode(); err != nil {
 		return err
